@@ -384,10 +384,13 @@ impl RaftStorage<ClientRequest, ClientResponse> for FileStore {
             .await??
         {
             RaftSnapshotResponse::NewSnapshotForLoad(path, snapshot_id) => {
+                // a transfer that was interrupted (the node restarted in the middle of the stream) leaves a file under the same
+                // snapshot id: a new stream starts from an empty file
                 let file = tokio::fs::OpenOptions::new()
                     .read(true)
                     .write(true)
                     .create(true)
+                    .truncate(true)
                     .open(path.as_str())
                     .await?;
                 Ok((snapshot_id.to_string(), Box::new(file)))
